@@ -51,6 +51,8 @@ def generate(R, tier):
         yield {"stream": "boundary-catalogue", "lines": ["[http:request]", "label = s:!:curl:", "sys = Linux", "sig = %s:Host,?Accept=[x]:Via:curl" % v], "fault": "http version := %r" % v}
     yield {"stream": "unreadable", "path": "missing"}
     yield {"stream": "unreadable", "path": "directory"}
+    yield {"stream": "unreadable", "path": "invalid-utf8-first-line"}
+    yield {"stream": "unreadable", "path": "invalid-utf8-late"}
     for _ in range(n):
         base = D.valid_file(R, small=R.random() < 0.7)
         lines, what = D.corrupt(R, base)
@@ -81,6 +83,18 @@ def impl_init():
     from harness import implutil as U
 
     def impl(c):
+        if "path" in c and c["path"].startswith("invalid-utf8"):
+            # not text at all: bytes that are not UTF-8 (in the first line / only after valid records)
+            p = os.path.join(U._TMP, "c10-bin-%d.fp" % os.getpid())
+            os.makedirs(U._TMP, exist_ok=True)
+            body = b"\xff\xfe[mtu]\n" if c["path"].endswith("first-line") else b"[mtu]\nlabel = A\nsig = 1500\n" + b"x" * 20000 + b"\nlabel = \xc3\x28\nsig = 1400\n"
+            with open(p, "wb") as f:
+                f.write(body)
+            try:
+                Database().load(p)
+            finally:
+                os.unlink(p)
+            return {"ok": "loaded?!"}
         if "path" in c:
             p = "/nonexistent/dir/p0f.fp" if c["path"] == "missing" else os.path.dirname(os.path.abspath(__file__))
             Database().load(p)
